@@ -203,7 +203,7 @@ STR_POOL = [b"", b"a", b"ab", b"abc", b"abcd", b"abcde", b"abcdef", b" ", b"  ",
 # ------------------------------------------------------------------------------------------ the check proper
 def kind(line, reply):
     t = line.split()
-    ty = t[3].split(":")[0]
+    ty = "union" if t[3].startswith("U(") else t[3].split(":")[0]
     ty = re.sub(r"^d\d+$", "dec64", ty)
     return "val:%s:%s:%s" % (t[2], ty, reply[0] if reply[0] == "ok" else reply[1])
 
@@ -423,7 +423,8 @@ def run_val(cx, derived=True):
     if derived:
         derived_types(run)
     f51_witness(run)
-    from checks import valdt
+    from checks import valdt, valunion
+    valunion.run_all(run)
     valdt.run_dt(run)
     return run
 
